@@ -21,6 +21,7 @@ func init() {
 	vfRegister("VfC17_hasResultsCache", VfC17_hasResultsCache)
 	vfRegister("VfC17_hasResultsCache2", VfC17_hasResultsCache2)
 	vfRegister("VfC17_getResponseHasEntries", VfC17_getResponseHasEntries)
+	vfRegister("VfC17_getResponseLong", VfC17_getResponseLong)
 	vfRegister("VfC17_errorCounts", VfC17_errorCounts)
 	vfRegister("VfC17_recvStatus", VfC17_recvStatus)
 	vfRegister("VfC17_recvStatusT", VfC17_recvStatusT)
@@ -320,6 +321,30 @@ func VfC17_getResponseHasEntries() {
 	vfReach("end")
 }
 
+// VfC17_getResponseLong: a response of FOUR next-hop entries spread over two network instances in every order
+// (grouped, interleaved, revisited - the checker's per-instance indexing must not depend on the order), symbolic
+// indices; one wanted next-hop (symbolic instance and index).
+func VfC17_getResponseLong() {
+	names := []string{"NI-A", "NI-B"}
+	resp := &spb.GetResponse{}
+	var es []*vfEnt
+	for i := 0; i < 4; i++ {
+		e := &vfEnt{kind: 1, ni: names[vfInt("e.ni", 0, 1)], num: vfU64("e.num")}
+		vfAssume(e.num != 0)
+		es = append(es, e)
+		resp.Entry = append(resp.Entry, e.aftEntry())
+	}
+	w := &vfEnt{kind: 1, ni: names[vfInt("want.ni", 0, 1)], num: vfU64("want.num")}
+	vfAssume(w.num != 0)
+	failed := vfFails(func(t testing.TB) { GetResponseHasEntries(t, resp, w.want()) })
+	present := false
+	for _, e := range es {
+		present = vfOr(present, vfAnd(e.ni == w.ni, e.num == w.num))
+	}
+	vfAssert(failed == !present, "C17:GetResponseHasEntries-fails-iff-wanted-entry-absent")
+	vfReach("end")
+}
+
 // VfC17_errorCounts: HasNSendErrors / HasNRecvErrors.
 func VfC17_errorCounts() {
 	var err error
@@ -384,12 +409,13 @@ func vfSymSt(name string, mayBePlain bool) *vfStD {
 		d.isStatus = false
 		return d
 	}
-	// a non-OK code: FailedPrecondition, InvalidArgument, Unimplemented, Internal
+	// a non-OK code: FailedPrecondition, Unimplemented, Unknown, InvalidArgument, Internal
+	// (Unknown is what the grpc library makes of an error that is not a status: a checker must not confuse the two)
 	nc, nm, nr := 2, 1, 1
 	if vfStRich {
-		nc, nm, nr = 3, 2, 2
+		nc, nm, nr = 4, 2, 2
 	}
-	d.code = []uint32{uint32(codes.FailedPrecondition), uint32(codes.Unimplemented), uint32(codes.InvalidArgument), uint32(codes.Internal)}[vfInt(name+".code", 0, nc)]
+	d.code = []uint32{uint32(codes.FailedPrecondition), uint32(codes.Unimplemented), uint32(codes.Unknown), uint32(codes.InvalidArgument), uint32(codes.Internal)}[vfInt(name+".code", 0, nc)]
 	d.msg = []string{"", "m1", "m2"}[vfInt(name+".msg", 0, nm)]
 	d.hasDet = vfBool(name + ".hasDetails")
 	if d.hasDet {
